@@ -601,6 +601,70 @@ func (ip *Interp) runClosure(fn *ssa.Function, args []any, binds []any, depth in
 						continue
 					}
 				}
+				if sc0 := x.Call.StaticCallee(); sc0 != nil && len(args) > 0 {
+					if st, isSt := args[0].(*iStruct); isSt && isTextBuffer(st.typ) {
+						// bytes.Buffer / strings.Builder: the text written so far (unknown once something unknown is written)
+						mname := sc0.Name()
+						cur, have := st.fields[-1].(constant.Value)
+						if _, touched := st.fields[-2]; !touched {
+							cur, have = constant.MakeString(""), true
+						}
+						switch mname {
+						case "WriteString":
+							st.fields[-2] = true
+							if a, isC := args[1].(constant.Value); have && len(args) == 2 && isC && a.Kind() == constant.String {
+								st.fields[-1] = constant.MakeString(constant.StringVal(cur) + constant.StringVal(a))
+							} else {
+								st.fields[-1] = nil
+							}
+							delete(env, x)
+							continue
+						case "WriteByte", "WriteRune":
+							st.fields[-2] = true
+							if a, isC := args[1].(constant.Value); have && len(args) == 2 && isC && a.Kind() == constant.Int {
+								if r, exact := constant.Int64Val(a); exact {
+									st.fields[-1] = constant.MakeString(constant.StringVal(cur) + string(rune(r)))
+									delete(env, x)
+									continue
+								}
+							}
+							st.fields[-1] = nil
+							delete(env, x)
+							continue
+						case "String":
+							if have {
+								env[x] = cur
+							} else {
+								delete(env, x)
+							}
+							continue
+						case "Len":
+							if have {
+								env[x] = constant.MakeInt64(int64(len(constant.StringVal(cur))))
+							} else {
+								delete(env, x)
+							}
+							continue
+						case "Reset":
+							st.fields[-2] = true
+							st.fields[-1] = constant.MakeString("")
+							continue
+						case "Truncate":
+							st.fields[-2] = true
+							if a, isC := args[1].(constant.Value); have && len(args) == 2 && isC {
+								if n, exact := constant.Int64Val(a); exact && n >= 0 && int(n) <= len(constant.StringVal(cur)) {
+									st.fields[-1] = constant.MakeString(constant.StringVal(cur)[:n])
+									continue
+								}
+							}
+							st.fields[-1] = nil
+							continue
+						default:
+							st.fields[-2] = true
+							st.fields[-1] = nil // anything else may write
+						}
+					}
+				}
 				if bi, isB := x.Call.Value.(*ssa.Builtin); isB {
 					if bi.Name() == "append" && len(args) == 2 {
 						var base, more []any
@@ -967,4 +1031,13 @@ func isVariadicArgs(c *ssa.Call, sl iSlice) bool {
 	}
 	_, ok := c.Call.Args[len(c.Call.Args)-1].(*ssa.Slice)
 	return ok
+}
+
+// isTextBuffer: bytes.Buffer or strings.Builder.
+func isTextBuffer(t *types.Named) bool {
+	if t.Obj().Pkg() == nil {
+		return false
+	}
+	n := t.Obj().Pkg().Path() + "." + t.Obj().Name()
+	return n == "bytes.Buffer" || n == "strings.Builder"
 }
